@@ -362,6 +362,16 @@ def corpus():
                  "body": [inc("s", ("pow", v("m"), 2)), inc("t", ("sub", ("pow", v("m"), 2), ("pow", v("m"), 3))),
                           ("assign", "m", ("choice", [(c(F(1, 3)), c(0)), (c(F(1, 3)), c(F(1, 2))), (c(F(1, 3)), c(1))]))]},
                 [{"s": 1}, {"t": 1}, {"s": 1, "m": 2}], "unit-interval-type-with-interior-value"))
+    # --- variables assigned several times in the INITIAL part, later values depending on earlier ones (the initial block runs in order)
+    out.append(({"types": [], "init": [("assign", "k", P.det(c(0))), ("assign", "k", P.det(("add", v("k"), c(1)))), ("assign", "k", P.det(("add", v("k"), c(1)))),
+                                       ("assign", "s", P.det(c(0)))], "guard": ("true",),
+                 "body": [("assign", "s", P.det(("add", v("s"), v("k")))), ("assign", "k", ("choice", [(c(F(1, 2)), v("k")), (c(F(1, 2)), ("add", v("k"), c(1)))]))]},
+                [{"s": 1}, {"k": 1}, {"k": 2}], "initial-part-chain:same-variable"))
+    out.append(({"types": [], "init": [bern("x", F(1, 2)), ("assign", "y", P.det(v("x"))),
+                                       ("assign", "x", ("choice", [(c(F(1, 2)), ("add", v("x"), c(2))), (c(F(1, 2)), c(0))])), ("assign", "s", P.det(c(0)))],
+                 "guard": ("true",),
+                 "body": [("assign", "s", P.det(("add", v("s"), ("mul", v("x"), v("y"))))), ("assign", "y", P.det(("sub", c(1), v("y"))))]},
+                [{"s": 1}, {"x": 1}, {"x": 1, "y": 1}, {"x": 2}], "initial-part-chain:random"))
     # --- comparisons written with the integer literal on the LEFT (1 < x, 0 <= t as a guard)
     out.append(({"types": [], "init": [("assign", "x", P.det(c(0))), ("assign", "y", P.det(c(0)))], "guard": ("true",),
                  "body": [fin3("x"),
